@@ -1,6 +1,7 @@
 package checks
 
 import (
+	"os"
 	"fmt"
 	"math/rand"
 	"sort"
@@ -41,6 +42,8 @@ func execAtomic(rep *base.Report, prop string, specs []*spec.Spec, mk func(c inj
 			out.Results = append(out.Results, ffResult{Case: byID[sc.ID], Sc: sc, Out: res.Outcomes[sc.ID]})
 		}
 		rep.Count("runner_children", res.Children)
+		os.Remove(b.Bin)
+		base.ResetPrivateGoCache()
 	}
 	for i := range out.Results {
 		out.ScByID[out.Results[i].Sc.ID] = &out.Results[i]
@@ -64,7 +67,7 @@ func CheckC05(tier string) {
 		o.MaxProvs = 4 + r.Intn(14)
 		return o
 	})
-	specs = append(specs, enumFamily(tier, base.Seed()+2, "er", 0.05)...)
+	specs = append(specs, enumFamilySized(tier, base.Seed()+2, "er", 0.05, 0.5)...)
 	specs = append(specs, corpusSpecs("C05")...)
 	sizes := map[int]int{}
 	run := execAtomic(rep, "C05", specs, func(c injCase, rng *rand.Rand) []runner.Scenario {
